@@ -59,7 +59,19 @@ func exportProblem(b *built, f *Func) string {
 	return ""
 }
 
-const callTimeout = 10 * time.Second
+// Watchdogs for a real call (never a verdict: a call that does not return is reported as
+// inconclusive). The reference has already terminated within maxSteps loop iterations, so
+// the real code needs microseconds; candidates tried during minimisation get less.
+const (
+	callTimeout     = 3 * time.Second
+	minimiseTimeout = 300 * time.Millisecond
+)
+
+type timeoutKey struct{}
+
+func withCallTimeout(ctx context.Context, d time.Duration) context.Context {
+	return context.WithValue(ctx, timeoutKey{}, d)
+}
 
 func realCall(ctx context.Context, b *built, f *Func, args []Value) (out realOutcome) {
 	fn := b.mod.ExportedFunction(f.Name)
@@ -67,7 +79,11 @@ func realCall(ctx context.Context, b *built, f *Func, args []Value) (out realOut
 	for i, a := range args {
 		raw[i] = encodeArg(a)
 	}
-	cctx, cancel := context.WithTimeout(ctx, callTimeout)
+	to := callTimeout
+	if d, ok := ctx.Value(timeoutKey{}).(time.Duration); ok {
+		to = d
+	}
+	cctx, cancel := context.WithTimeout(ctx, to)
 	defer cancel()
 	defer func() {
 		if r := recover(); r != nil {
@@ -92,14 +108,14 @@ func realCall(ctx context.Context, b *built, f *Func, args []Value) (out realOut
 }
 
 // buildSafe: build() with panics of the pipeline turned into a result.
-func buildSafe(ctx context.Context, src string) (b *built, panicMsg string) {
+func buildSafe(ctx context.Context, env *hostEnv, src string) (b *built, panicMsg string) {
 	defer func() {
 		if r := recover(); r != nil {
 			panicMsg = fmt.Sprintf("%v\n%s", r, debug.Stack())
 			b = nil
 		}
 	}()
-	return build(ctx, src, false), ""
+	return build(ctx, env, src), ""
 }
 
 // ---------------------------------------------------------------------------------------
@@ -115,13 +131,13 @@ type Case struct {
 type verdictKind int
 
 const (
-	vdOK verdictKind = iota
-	vdRejected        // parser / analyzer produced diagnostics: not judged
-	vdPipeline        // accepted, but compile / validate / instantiate failed
-	vdPanic           // a Go panic escaped the pipeline
-	vdExport          // export missing or with the wrong wasm signature
-	vdMismatch        // a call's outcome differs from the specification's
-	vdTimeout         // real call did not return (watchdog): inconclusive
+	vdOK       verdictKind = iota
+	vdRejected             // parser / analyzer produced diagnostics: not judged
+	vdPipeline             // accepted, but compile / validate / instantiate failed
+	vdPanic                // a Go panic escaped the pipeline
+	vdExport               // export missing or with the wrong wasm signature
+	vdMismatch             // a call's outcome differs from the specification's
+	vdTimeout              // real call did not return (watchdog): inconclusive
 )
 
 type Verdict struct {
@@ -160,15 +176,34 @@ func compareCall(ref Outcome, real realOutcome) string {
 	return ""
 }
 
+// seqTags: the reference tags relevant to a mismatching call. For a stateful function
+// the state at the failing call was produced by the earlier calls of the sequence, so
+// their tags count too.
+func seqTags(acc map[string]struct{}, in *Interp) []string {
+	if !in.f.Stateful {
+		return in.Tags()
+	}
+	out := make([]string, 0, len(acc))
+	for t := range acc {
+		out = append(out, t)
+	}
+	sortStrings(out)
+	return out
+}
+
 // runCalls runs the case's calls against an already built module. Stops at the first
 // mismatch, runtime error or silent outcome of a stateful function (the state after those
 // is not defined).
 func runCalls(ctx context.Context, b *built, c Case) Verdict {
 	vd := Verdict{Kind: vdOK, Silent: map[string]int{}}
 	in := newInterp(c.F)
+	acc := map[string]struct{}{}
 	b.state.SetNodeKey(freshKey())
 	for i, args := range c.Calls {
 		ref := in.Call(args)
+		for _, t := range in.Tags() {
+			acc[t] = struct{}{}
+		}
 		if ref.Kind == oSilent {
 			vd.Silent[ref.Reason]++
 			if c.F.Stateful {
@@ -183,7 +218,7 @@ func runCalls(ctx context.Context, b *built, c Case) Verdict {
 		}
 		vd.Judged++
 		if mk := compareCall(ref, real); mk != "" {
-			vd.Kind, vd.CallIdx, vd.MKind, vd.Ref, vd.Real, vd.Tags = vdMismatch, i, mk, ref, real, in.Tags()
+			vd.Kind, vd.CallIdx, vd.MKind, vd.Ref, vd.Real, vd.Tags = vdMismatch, i, mk, ref, real, seqTags(acc, in)
 			return vd
 		}
 		if ref.Kind == oError {
@@ -197,9 +232,9 @@ func runCalls(ctx context.Context, b *built, c Case) Verdict {
 }
 
 // judgeCase builds a one-function program for the case and judges it.
-func judgeCase(ctx context.Context, c Case) Verdict {
+func judgeCase(ctx context.Context, env *hostEnv, c Case) Verdict {
 	src := c.F.String()
-	b, pmsg := buildSafe(ctx, src)
+	b, pmsg := buildSafe(ctx, env, src)
 	if b == nil {
 		return Verdict{Kind: vdPanic, Msg: pmsg}
 	}
@@ -240,19 +275,31 @@ func normMsg(msg string) string {
 	}
 	msg = reFnIdx.ReplaceAllString(msg, "")
 	msg = rePos.ReplaceAllString(msg, "")
-	// keep the innermost clause of wrapped errors
+	// keep the innermost clause(s) of wrapped errors: the compiler wraps every error in
+	// "failed to compile <where>:" context that says nothing about the cause
 	parts := strings.Split(msg, ": ")
-	if len(parts) > 2 {
-		parts = parts[len(parts)-2:]
+	keep := 3
+	if strings.HasPrefix(msg, "failed to compile") {
+		keep = 1
+		if strings.Contains(msg, "strconv.") {
+			keep = 3
+		}
+	}
+	if keep == 1 && len(parts) > 1 && len(parts[len(parts)-1]) < 14 {
+		keep = 2 // "unknown unit: xyz"
+	}
+	if len(parts) > keep {
+		parts = parts[len(parts)-keep:]
 	}
 	msg = strings.Join(parts, ": ")
+	msg = strings.ReplaceAll(msg, "'if'", "if")
 	msg = reQuoted.ReplaceAllString(msg, "X")
 	msg = reType.ReplaceAllString(msg, "T")
 	msg = reNum.ReplaceAllString(msg, "N")
 	msg = strings.ToLower(reSpace.ReplaceAllString(strings.TrimSpace(msg), "-"))
 	msg = regexp.MustCompile(`[^a-z0-9_.-]+`).ReplaceAllString(msg, "")
-	if len(msg) > 70 {
-		msg = msg[:70]
+	if len(msg) > 110 {
+		msg = msg[:110]
 	}
 	return msg
 }
@@ -260,7 +307,7 @@ func normMsg(msg string) string {
 // primary tags name a feature of the specification whose exercise changes a value;
 // secondary ones only describe the path taken. Signatures carry the primary tags, or the
 // secondary ones when there is no primary tag.
-var primaryPrefixes = []string{"wrap.", "cast.trunc.", "cast.sat.", "cast.f2i-sat.", "sc.", "bool.nonnormal", "float.nan-compare", "divzero", "prec."}
+var primaryPrefixes = []string{"wrap.", "cast.trunc.", "cast.sat.", "cast.f2i-sat.", "sc.", "bool.nonnormal", "float.nan-compare", "divzero", "prec.", "pow.exp-", "hint."}
 var secondaryPrefixes = []string{"cast.i2f-inexact", "cast.i2f-unsigned-msb", "cast.i2f-negative", "cast.f2i-fraction", "cmp.", "stateful.reloaded", "loop.", "if.", "float.nan", "float.inf"}
 
 func hasPrefixOf(tag string, ps []string) bool {
@@ -379,6 +426,12 @@ func precTags(e *E, into map[string]struct{}) {
 	}
 	if (e.K == KNeg || e.K == KNot) && e.A.K == KArith && e.A.Op == "^" {
 		into["prec.unary-over-pow"] = struct{}{}
+	}
+	// a bare literal as the LEFT operand: its type comes from the right operand under the
+	// specification's reading; a compiler that types it from an outer context (cast
+	// target, declared type, left side of an enclosing comparison) goes wrong here
+	if (e.K == KArith || e.K == KCmp) && !e.A.anchored() && e.B.anchored() {
+		into["hint.left-bare-literal"] = struct{}{}
 	}
 	precTags(e.A, into)
 	precTags(e.B, into)
